@@ -178,8 +178,10 @@ CLAIMED = {
                 "positive (real-number half of 'never NaN'); conversely an orbit that is not decaying IS answered (decay guards at the requested time, eL^2 <= 4/25, "
                 'osculating perigee >= 1.005 earth radii imply a returned state, via the convergence proof of the Kepler loop and rk >= 1: C13_healthy_is_answered*), '
                 'and in terms of the input only: every accepted near-earth set with e0 <= 0.39 is answered at its epoch and, when B* = 0, at every time '
-                "(C13_answered_at_epoch_or_drag_free*). PARTIAL: 'a state is returned' with drag away from epoch and for e0 in (0.39, 0.47), constructor denominators "
-                'and binary64 overflow are sampled over the printable range of every field, incl. the accepted high-eccentricity island',
+                '(C13_answered_at_epoch_or_drag_free*), and more generally EVERY accepted element set outside the degenerate island (TLE mean motion 6.4-18 rev/day, e0'
+                ' <= 0.9, which the perigee guard turns into e0 <= 0.467) at its epoch or drag-free (C13_accepted_is_answered_at_epoch_or_drag_free; rk >= 1 from the '
+                "osculating perigee alone, loop convergence up to eL = 0.47). PARTIAL: 'a state is returned' with drag away from epoch, constructor denominators and "
+                'binary64 overflow are sampled over the printable range of every field, incl. the accepted high-eccentricity island',
         "design_ref": 'DESIGN.md 5/C13',
         "note": "trusted: Coq kernel, stdlib real axioms, translator (self-checked each run on every outcome class); guard thresholds are tied to the report's "
                 'period/perigee by C13_period_is_model_period',
